@@ -56,6 +56,11 @@ def parse_result(out):
                 if "=" in t:
                     k, v = t.split("=", 1)
                     d[k] = v
+        elif l.startswith("presult "):
+            for t in l.split()[1:]:
+                if "=" in t:
+                    k, v = t.split("=", 1)
+                    d["p_" + k] = v
         elif l.startswith("pairs"):
             d["pairs"] = l.split()[1:]
         elif l.startswith("#hang"):
@@ -93,7 +98,12 @@ def gen_cases(ctx):
                                                  rng.randint(0, 3), rng.randint(0, 8), rng.randint(0, 1))]
         cases.append(c)
     forced = [["case %d forced" % (len(cases) + i), "force " + w] for i, w in enumerate(("lostwakeup", "iteruaf", "cursor"))]
-    return cases, forced
+    # final-contents phases: every application operation as the LAST one, no request outstanding, then one
+    # incremental request per staying client (Raw / CopyRect / CopyRect+RichCursor+PointerPos)
+    nph = 5 if ctx.quick() else 40
+    phases = [["case %d phases" % (len(cases) + len(forced) + i),
+               "phases %d %d %d" % (rng.randint(1, 10 ** 6), rng.choice([0, 20, 50, 100]), 2)] for i in range(nph)]
+    return cases, forced, phases
 
 
 def check(ctx):
@@ -101,7 +111,7 @@ def check(ctx):
     proof_ok = vlib.prove(ctx, PROP_FILE, ["Extract/Extract_C13.vo"])
     sync_extraction()
     mexe = vlib.build_ocaml("C13", "driver_C13.ml", "Extract/Extract_C13.vo")
-    cases, forced = gen_cases(ctx)
+    cases, forced, phases = gen_cases(ctx)
     ncyc = list(range(0, 10))
     rc, mout, merr = vlib.run_driver(mexe, "case 0 model\ntable\nwitness\n" + "".join("cycles %d\n" % n for n in ncyc))
     model = {"table": set(), "palette": set(), "zombies": {}, "witness": []}
@@ -120,6 +130,7 @@ def check(ctx):
     workers = 5
     res = run_cases(cexe, cases, ASAN_ENV, workers)
     fres = run_cases(cexe, forced, ASAN_ENV, 3)
+    pres = run_cases(cexe, phases, ASAN_ENV, 5)
     tsan_lines = []
     tsan_cases = cases[:2] if ctx.quick() else cases[:12]
     try:
@@ -129,7 +140,7 @@ def check(ctx):
         tres = []
         ctx.assumptions.append("TSan build unavailable: " + str(e)[:120])
 
-    hist = {"stress": len(cases), "forced": len(forced), "tsan": len(tres)}
+    hist = {"stress": len(cases), "forced": len(forced), "phases": len(phases), "tsan": len(tres)}
     pairs_seen = set()
     nstress_ok = 0
     mism = []
@@ -220,6 +231,41 @@ def check(ctx):
                 report("forced schedule (two clientOutput threads inside their rfbShowCursor/rfbHideCursor brackets at the same "
                        "time): %d pixels of the cursor stay painted in the application's framebuffer" % b,
                        {"defect": "cursor_burned"}, c, out)
+    # final-contents phases
+    nphase_ok = 0
+    ninconclusive = []
+    for c, (rc, out, err) in zip(phases, pres):
+        d = parse_result(out)
+        if "p_phases" not in d:
+            if d.get("crash") == "1":
+                feat = asan_features(err)
+                report("phases run crashed / AddressSanitizer reported %s" % (feat,), feat, c, out, asan_head(err))
+            elif d.get("hang") == "1":
+                report("watchdog: phase '%s' did not return" % d.get("phase"), {"defect": "hang", "phase": d.get("phase", "?")}, c, out, err)
+            else:
+                ninconclusive.append(out[-200:])       # could not connect / initial picture timed out (machine load)
+            continue
+        if int(d.get("p_phasefails", 0)) > 0:
+            first = d.get("p_failed", "[?]")[1:].split(",")[0].rstrip("]")
+            op, kind, how = (first.split(":") + ["?", "?", "?"])[:3]
+            report("a staying client did not end up with the final framebuffer: after the application's last operation '%s' "
+                   "(no request outstanding) the client of kind %s (k0 Raw, k1 CopyRect+Raw, k2 CopyRect+Raw+RichCursor+PointerPos) sent one "
+                   "incremental request and got %s within 8 s; all failures of the run: %s" %
+                   (op, kind, "no update" if how == "noupdate" else "a malformed stream", d.get("p_failed")),
+                   {"defect": "final_contents", "after": op}, c, out)
+        else:
+            nphase_ok += 1
+        if d.get("hang") == "1":
+            report("watchdog: phase '%s' did not return" % d.get("phase"), {"defect": "hang", "phase": d.get("phase", "?")}, c, out, err)
+        elif d.get("crash") == "1":
+            feat = asan_features(err)
+            report("phases run crashed / AddressSanitizer reported %s" % (feat,), feat, c, out, asan_head(err))
+
+    if len(ninconclusive) * 2 > len(phases):
+        ctx.violation("threaded event loop (sampled run): %d of %d final-contents runs could not even set their clients up: %s" %
+                      (len(ninconclusive), len(phases), ninconclusive[0]), {"defect": "crash", "site": "setup"},
+                      "script:\n" + "\n".join(phases[0]))
+
     # TSan: lock-order-inversion / mutex misuse only (data races are outside this check)
     tsan_bad = []
     # Reports are classified by ROOT CAUSE, not by the sanitizer's wording.  The known iterator window
@@ -228,7 +274,9 @@ def check(ctx):
     # "destroy of a locked mutex", ... depending on where the two threads are.
     ITER_USERS = ("rfbClientIteratorNext", "rfbIncrClientRef", "rfbDecrClientRef", "rfbReleaseClientIterator",
                   "rfbMarkRegionAsModified", "rfbMarkRectAsModified", "rfbSendBell", "rfbSendServerCutText",
-                  "rfbNewFramebuffer", "rfbSetCursor", "rfbScheduleCopyRegion", "rfbDoCopyRegion")
+                  "rfbNewFramebuffer", "rfbSetCursor", "rfbScheduleCopyRegion", "rfbDoCopyRegion", "rfbDoCopyRect",
+                  "rfbDefaultPtrAddEvent", "rfbRedrawAfterHideCursor", "rfbShutdownServer", "rfbScreenCleanup",
+                  "rfbGetClientIterator")
     TEARDOWN_KINDS = ("heap-use-after-free", "use of an invalid mutex", "unlock of an unlocked mutex",
                       "destroy of a locked mutex", "double lock", "read lock of a write locked mutex")
     for c, (rc, out, err) in zip(tsan_cases, tres):
@@ -242,8 +290,12 @@ def check(ctx):
             if kind.startswith("thread leak") and "rfbStartOnHoldClient" in r:
                 tsan_bad.append((kind, {"defect": "threads_not_reclaimed"}, c, r))   # ended client threads never joined
                 continue
+            # a mutex "created at rfbNewTCPOrUDPClient" lives in a client record
+            race_seen = any("rfbClientConnectionGone" in q and "ThreadSanitizer" in q and not q.lstrip().startswith("WARNING: ThreadSanitizer: data race")
+                            for q in err.split("=================="))
             if any(kind.startswith(tk) for tk in TEARDOWN_KINDS) and \
-               ("rfbClientConnectionGone" in r or any(u in r for u in ITER_USERS)):
+               ("rfbClientConnectionGone" in r or any(u in r for u in ITER_USERS) or
+                ("rfbNewTCPOrUDPClient" in r and (race_seen or not kind.startswith("unlock")))):
                 tsan_bad.append(("iterator window: " + kind,
                                  {"defect": "heap-use-after-free", "freed_by": "rfbClientConnectionGone"}, c, r))
                 continue
@@ -256,12 +308,13 @@ def check(ctx):
         report("ThreadSanitizer: " + kind, feat, c, "", r[:4000])
 
     ctx.coverage.update(
-        evaluations=len(cases) + len(forced) + len(tres), distinct_nontrivial=len(pairs_seen) + nstress_ok,
+        evaluations=len(cases) + len(forced) + len(phases) + len(tres), distinct_nontrivial=len(pairs_seen) + nstress_ok + nphase_ok,
+        final_contents_phase_runs_ok=nphase_ok, final_contents_phase_runs_inconclusive=len(ninconclusive),
         rule="PROOF PART: theorems of Props/Properties_C13.v hold for every schedule of the protocol models. SAMPLED PART: "
              "each evaluation is one stress run of the real background loop (own process, seeded yield injection at every "
              "lock/wait/socket call of the library, watchdog, ASan) or one forced-schedule replay or one TSan run; "
              "distinct_nontrivial = distinct observed (held,acquired) mutex-class pairs + stress runs that completed all phases",
-        samples=[cases[0], cases[-1], forced[0]],
+        samples=[cases[0], cases[-1], forced[0], phases[0]],
         input_distribution=hist, stress_completed=nstress_ok,
         model_lock_table=sorted(model["table"]), observed_lock_pairs=sorted(pairs_seen),
         observed_pairs_not_in_model=other, forced_replays=forced_seen, model_witnesses=model["witness"],
